@@ -122,6 +122,8 @@ def check(ctx):
                 arg = D.Dag(eb).expr([c for (b, c) in eb.calls if b in fo][0]["args"][1])
                 ok = C01._mentions(arg, lambda e: e[0] == "call" and e[1].split("::")[-1] == "new") or "ref" in str(arg)[:8]
             ctx.ob("R03.2", f"{ke}|one-handle-one-fan-out", ok, f"{eb.f['file']}:{eb.f['line']}", f"{len(mk)} handle construction(s), {len(fo)} send_derived call(s); every Ok answer comes after the fan-out")
+    import streamrules as _S
+    _S.check_consume_asks_queue(ctx, "R03.3")
     # ------------------------------------------------------------------ R03.4 refcount pre-load = copies (shared with C17 R17.2)
     C17 = importlib.import_module("props.C17")
     class OnlyRef(util.PrefixedCtx):
@@ -170,9 +172,9 @@ def check(ctx):
     C10.check(sub)
     n9 = 0
     for o in sub.obs:
-        if o["rule"] == "R10.2" and ("resyncs-live-list" in o["key"] or "takes-one-vacant-id" in o["key"] or "returns-its-id-once" in o["key"]):
+        if (o["rule"] == "R10.2" and ("resyncs-live-list" in o["key"] or "takes-one-vacant-id" in o["key"] or "returns-its-id-once" in o["key"])) or o["rule"] == "R10.7":
             n9 += 1
-            ctx.ob("R03.9", o["key"].split("|", 1)[1] if o["key"].startswith("R10.2|") else o["key"], o["ok"], o["site"], o["detail"], o["nontrivial"])
+            ctx.ob("R03.9", o["key"].split("|", 1)[1] if o["key"].startswith(("R10.2|", "R10.7|")) else o["key"], o["ok"], o["site"], o["detail"], o["nontrivial"])
     ctx.floor("R03.9", 4)
     ctx.floor("R03.7", 8)
     ctx.floor("R03.1", 18); ctx.floor("R03.2", 20); ctx.floor("R03.3", 10); ctx.floor("R03.4", 6); ctx.floor("R03.5", 10); ctx.floor("R03.6", 20)
